@@ -2,13 +2,15 @@
 
 DELAYS = [0.25, 0.5, 1, 1.5, 2, 3]
 ERR_TYPES = ["E", "E", "A", "B", "K", "Z"]
-PRIV_TYPES = ["assert", "exit", "kbd", "assert_sub", "assert_z"]
+PRIV_TYPES = ["assert", "exit", "kbd", "assert_sub", "assert_z", "exit_sub", "kbd_sub"]
 
 
 class Gen:
     def __init__(self, rng, fail_rate=0.15, priv_rate=0.15, until_rate=0.3, max_depth=2,
-                 cancel_rate=0.1):
+                 cancel_rate=0.1, convert_rate=0.0, payload_rate=0.15):
         self.rng = rng
+        self.convert_rate = convert_rate
+        self.payload_rate = payload_rate
         self.fail_rate = fail_rate
         self.priv_rate = priv_rate
         self.until_rate = until_rate
@@ -56,14 +58,54 @@ class Gen:
             {"op": "sleep", "d": rng.choice(DELAYS)}, {"op": "flag_set", "on": flag}]})
         return {"k": "flag", "n": flag}
 
-    def late_child(self):
+    def late_child(self, into=None, generation=1):
+        """A child started while its scope is already running (or shutting down). With `into`
+        given it may itself start a further one - delayed, or volatile - into the same scope:
+        "children spawned during shutdown are waited for as well" holds for every generation."""
+        rng = self.rng
         name = self.fresh("l")
         self.actors.append(name)
         ops = []
         self.gap(ops, 0.8)
         ops.append({"op": "now", "tag": "late"})
-        self.maybe_raise(ops, 0.5)
-        return {"name": name, "ops": ops}
+        if into is not None and generation < 3 and rng.random() < 0.3:
+            ops.append({"op": "spawn", "into": into,
+                        "actor": self.late_child(into, generation + 1)})
+            if rng.random() < 0.5:
+                self.gap(ops, 0.8)
+        spec = {"name": name, "ops": ops}
+        if into is not None and rng.random() < 0.15:
+            spec["volatile"] = True
+            ops.append({"op": "eternity"})
+        else:
+            self.maybe_raise(ops, 0.5)
+        if into is not None and rng.random() < 0.2:
+            spec["after"] = rng.choice(DELAYS)
+        return spec
+
+    def payload_child(self, volatile):
+        """A child whose payload is a notification (`scope.do(time + 20)`, `scope.do(eternity,
+        volatile=True)`), optionally with a start delay: no code of the program runs in it, its
+        status and the scope's exit time are what can be observed."""
+        rng = self.rng
+        name = self.fresh("n")
+        r = rng.random()
+        if volatile and r < 0.5:
+            payload = {"k": "eternity"}
+        elif r < 0.6:
+            payload = {"k": "delay", "d": rng.choice(DELAYS + [40])}
+        elif r < 0.8:
+            payload = {"k": "time", "op": ">=", "t": rng.choice([0.5, 1, 2, 3, 40])}
+        elif r < 0.9:
+            payload = {"k": "time", "op": ">=", "t": 64}
+        else:
+            payload = {"k": "instant"}
+        spec = {"name": name, "payload": payload, "ops": []}
+        if volatile:
+            spec["volatile"] = True
+        if rng.random() < 0.3:
+            spec["after"] = rng.choice(DELAYS)
+        return spec
 
     def child_ops(self, depth, parent_label, volatile):
         rng = self.rng
@@ -85,10 +127,11 @@ class Gen:
                 if rng.random() < 0.5:
                     self.gap(ops, 0.9)
                 if rng.random() < 0.4:
-                    ops.append({"op": "spawn", "into": parent_label, "actor": self.late_child()})
+                    ops.append({"op": "spawn", "into": parent_label,
+                                "actor": self.late_child(parent_label)})
                 ops.append({"op": "now", "tag": "graceful"})
             elif r < 0.82:
-                late = self.late_child()
+                late = self.late_child(parent_label)
                 ops.append({"op": "spawn", "into": parent_label, "actor": late})
                 if rng.random() < 0.3:
                     # ... and cancels it in the same turn, before it has started
@@ -100,7 +143,12 @@ class Gen:
             ops.append({"op": "eternity"})
         else:
             self.maybe_raise(ops)
-        if rng.random() < 0.15:
+        if self.convert_rate and rng.random() < self.convert_rate:
+            # clean-up that raises: a cancellation, an interrupt or a forceful close of this child
+            # is answered with an exception of the program (a failure made *during* teardown)
+            ops = [{"op": "finally", "body": ops, "handler": [], "sync": [],
+                    "convert": {"op": "raise", "type": rng.choice(ERR_TYPES)}}]
+        elif rng.random() < 0.15:
             # cleanup handler: spawns a sibling into the (possibly closing) parent scope
             handler = [{"op": "sleep", "d": rng.choice(DELAYS)}] if rng.random() < 0.4 else []
             ops = [{"op": "finally", "body": ops, "handler": handler,
@@ -133,6 +181,8 @@ class Gen:
                 child["ops"].insert(rng.randint(0, len(child["ops"])), {
                     "op": "await_task", "task": rng.choice(names[:-1]), "reraise": True})
             children.append(child)
+        if rng.random() < self.payload_rate:
+            children.insert(rng.randint(0, len(children)), self.payload_child(rng.random() < 0.4))
         op["children"] = children
         body = []
         for _ in range(rng.randint(0, 3)):
@@ -153,6 +203,11 @@ class Gen:
             else:
                 if self.maybe_raise(body, 1.5):
                     break
+        if self.convert_rate and body and rng.random() < self.convert_rate:
+            # the body answers whatever aborts it (its own scope's cancel signal included) with an
+            # exception of its own: the block must end with exactly that exception
+            body = [{"op": "try", "body": body, "handler": [],
+                     "convert": {"op": "raise", "type": rng.choice(ERR_TYPES)}}]
         op["body"] = body
         return op
 
